@@ -62,8 +62,10 @@ package iqr
 // the two are never both missing)
 //@ func (*Record).ReadColumn
 //@   assumed
-//@   pure
+//@   modifies record.validated
 //@   ensures implies(result1 == nil, result0 != nil)
+//@   ensures implies(result1 != nil, result0 == nil)
+//@   note ASSUMED (by reading): a failed read returns a nil value together with its error; the only field written is the record's own `validated` flag
 //@ end
 
 // C05/C06 (the result of sort does not depend on how the input is cut into
